@@ -1283,6 +1283,7 @@ Definition sd_drain_go (debug : bool) (qi : nat) : nat -> list ent -> MW (list e
 Lemma sd_step_op_QueryAll : forall d f hrels, step_op d (OQueryAll f hrels) =
   (rels <- resolveR hrels ;;
    rels <- resolve_relidx f rels ;;
+   check_unsafe_rels f rels ;;;
    qi <- query_open f rels ;;
    cnt <- query_count qi ;;
    es <- sd_drain_go d qi (S cnt) [] ;;
@@ -1317,6 +1318,7 @@ Proof.
   - (* OQueryAll *)
     apply sd_ufm_bind; [apply sd_ufm_ro, readonly_resolveR|]. intros rl.
     apply sd_ufm_bind; [apply sd_ufm_ro, readonly_resolve_relidx|]. intros ?rl.
+    apply sd_ufm_bind; [apply sd_ufm_ro, readonly_check_unsafe_rels|]. intros _.
     apply sd_ufm_bind; [apply sd_ufm_fr; intros s; apply query_open_frame|]. intros qi.
     apply sd_ufm_bind; [apply sd_ufm_ro, sd_ro_query_count|]. intros cnt.
     apply sd_ufm_bind; [apply sd_ufm_drain_go|]. intros es.
@@ -1324,6 +1326,7 @@ Proof.
   - (* OQueryOpen *)
     apply sd_ufm_bind; [apply sd_ufm_ro, readonly_resolveR|]. intros rl.
     apply sd_ufm_bind; [apply sd_ufm_ro, readonly_resolve_relidx|]. intros ?rl.
+    apply sd_ufm_bind; [apply sd_ufm_ro, readonly_check_unsafe_rels|]. intros _.
     apply sd_ufm_bind; [apply sd_ufm_fr; intros s; apply query_open_frame|]. intros qi. apply sd_ufm_ro, readonly_ret.
   - apply sd_ufm_bind; [apply sd_ufm_fr; intros s; apply query_next_frame|]. intros b. apply sd_ufm_ro, readonly_ret.
   - apply sd_ufm_bind; [apply sd_ufm_fr; intros s; apply query_close_frame|]. intros b. apply sd_ufm_ro, readonly_ret.
@@ -1688,12 +1691,14 @@ Proof.
   intros debug o F HFP Hq. destruct o; try discriminate Hq; [rewrite sd_step_op_QueryAll | cbn [step_op] ..].
   - apply sd_qp_bind; [apply sd_qp_ro, readonly_resolveR|]. intros rl.
     apply sd_qp_bind; [apply sd_qp_ro, readonly_resolve_relidx|]. intros ?rl.
+    apply sd_qp_bind; [apply sd_qp_ro, readonly_check_unsafe_rels|]. intros _.
     apply sd_qp_bind; [apply sd_qp_open; exact HFP|]. intros qi.
     apply sd_qp_bind; [apply sd_qp_ro, sd_ro_query_count|]. intros cnt.
     apply sd_qp_bind; [apply sd_qp_drain_go|]. intros es.
     apply sd_qp_bind; [apply sd_qp_close|]. intros _. apply sd_qp_ret.
   - apply sd_qp_bind; [apply sd_qp_ro, readonly_resolveR|]. intros rl.
     apply sd_qp_bind; [apply sd_qp_ro, readonly_resolve_relidx|]. intros ?rl.
+    apply sd_qp_bind; [apply sd_qp_ro, readonly_check_unsafe_rels|]. intros _.
     apply sd_qp_bind; [apply sd_qp_open; exact HFP|]. intros qi. apply sd_qp_ret.
   - apply sd_qp_bind; [apply sd_qp_next|]. intros b. apply sd_qp_ret.
   - apply sd_qp_bind; [apply sd_qp_close|]. intros b. apply sd_qp_ret.
